@@ -23,13 +23,22 @@ from harness.common import Driver, Result, err_class
 
 LEVEL = "proof"
 TRUSTED_BASE = [
-    "Lean 4.33 kernel; theorem C02.solve_sound (soundness of the solver model for every target, size and outcome script, under the hypothesis "
-    "hfinal = 'the model's final working tableau generates the group of |0..0>') and C02.validator_sound, both on top of the C07/C01 tableau semantics",
+    "Lean 4.33 kernel; theorems C02.solve_sound (soundness of the solver model for every target, size and outcome script, under hfinal = 'the model's "
+    "final working tableau generates the group of |0..0>'), C02.solver_complete / solver_complete_stabilizer (completeness: for every graph on >= 1 vertex without "
+    "isolated vertex / every stabilizer target without product qubit the model returns and hfinal holds), C02.solve_correct (both together) and C02.validator_sound, "
+    "on top of the C07/C01 tableau semantics and the C03 echelon/height theorems",
+    "C02.solve_sound_unconditional / solve_returns_correct remove hfinal (whenever the model returns, its circuit is correct) under the C11 theorem "
+    "InverseCircuitEndsInZero (what inverse_circuit returns is the zero tableau)",
+    "the completeness theorems carry ONE explicit hypothesis, InverseCircuitComplete (inverse_circuit reaches |0..0> on every valid stabilizer tableau; property C11, "
+    "proved on its own branch and discharged when the branches are merged)",
     "correspondence: the solver model is compared exactly (per-wire operation sequences) with the implementation on every generated target; "
-    "hfinal is evaluated by the driver on every input (flag zero=1); completeness (solve returns, hfinal holds, for EVERY graph) is NOT proved",
+    "hfinal's executable form (driver flag zero=1) is evaluated on every input; the two tableau-rewriting helpers (_time_reversed_measurement, "
+    "_add_photon_absorption) and inverse_circuit are additionally compared with their models on synthetic inputs; targets reaching rarely taken "
+    "sign-dependent branches are chosen with the model's branch tags (the tag histogram is in the evidence)",
     "harness: translation of the implementation's op sequence into the validator's input (tokens_of), numpy dense reference (n_quantum <= 8)",
 ]
-ASSUMPTIONS = ["targets with an isolated vertex are the known finding D3 (solver raises IndexError) and are evaluated only for that finding"]
+ASSUMPTIONS = ["targets with an isolated vertex are the known finding D3 (solver raises IndexError) and are evaluated only for that finding; "
+               "they (and the empty graph, ValueError) are exactly the targets excluded by the hypotheses of C02.solver_complete"]
 
 KEY_D3 = "solve:target-has-isolated-vertex:raises"
 
@@ -74,7 +83,7 @@ def graph_canon(adj, ne):
     return tu.span_canon(x, z, np.zeros(n + ne, dtype=int))
 
 
-def check_graph(ctx, res, drv, adj, rep, backend, SC, DC, pending, order=None, light=False):
+def check_graph(ctx, res, drv, adj, rep, backend, SC, DC, pending, order=None, light=False, repeat=None):
     from graphiq.metrics import Infidelity
     from graphiq.solvers.time_reversed_solver import TimeReversedSolver
 
@@ -116,6 +125,26 @@ def check_graph(ctx, res, drv, adj, rep, backend, SC, DC, pending, order=None, l
     inp["ops"] = ",".join(toks)
     inp["ne"] = ne
     want = graph_canon(adj, ne)
+    # history: the property holds for EVERY call of solve(); the same solver object is asked again (and a third time after its result
+    # was read): it must return, and return the same circuit (a different one is validated on its own)
+    if repeat or (repeat is None and ne + np_ <= 14 and (n <= 3 or ctx.rng.random() < (0.25 if ctx.quick else 0.5))):
+        res.count("branches", "history:repeated-solve")
+        for k in (2, 3):
+            try:
+                solver.solve()
+                score_k, circuit_k = solver.result
+            except Exception as e:  # noqa: BLE001
+                res.violation(f"solve:repeat:raises:{err_class(e)}",
+                              f"call number {k} of solve() on the same solver object raised {err_class(e)} (the first call returned a circuit)", input=inp)
+                break
+            if abs(float(score_k)) > 1e-9:
+                res.violation("solve:repeat:score-not-zero", f"call number {k} of solve() on the same solver object reports score {score_k}", input=inp)
+            toks_k, _ = tokens_of(circuit_k)
+            if per_wire(toks_k) != per_wire(toks) or circuit_k.n_emitters != ne:
+                inp_k = dict(inp, ops=",".join(toks_k), ne=circuit_k.n_emitters, call=k)
+                res.exact_break("solve:repeat:different-circuit", input=inp_k, impl=",".join(toks_k)[:1500], model=",".join(toks)[:1500])
+                pending.append((f"circ.check ne={circuit_k.n_emitters} np={np_} a={tu.bits(adj) or '-'} ops={inp_k['ops'] or '-'} max=256", inp_k))
+                break
     # both real backends, three settings
     import numpy.random as npr
 
@@ -186,6 +215,8 @@ def flush(res, drv, pending):
                 res.exact_break("solver.trs:error-class", input=clean, impl="ok", model=rep["_raw"][:200])
                 continue
             mtoks = [] if rep["ops"] == "-" else rep["ops"].split(",")
+            for tg in set(() if rep.get("tags", "-") == "-" else rep["tags"].split("|")):
+                res.count("branches", "tag:" + tg)
             if rep.get("zero") != "1":
                 # hypothesis `hfinal` of C02.solve_sound fails on this input: the proof does not cover it
                 res.exact_break("solver.trs:final-tableau-not-zero", input=clean, impl="ok", model=rep["_raw"][:300])
@@ -267,7 +298,9 @@ def run(ctx, budget=1.0):
         if len(pending) > 40:
             flush(res, drv, pending)
     res.extra["light_targets"] = n_light
+    guided_targets(ctx, res, drv, SC, DC, pending, int((1400 if ctx.quick else 12000) * budget))
     helper_correspondence(ctx, res, drv, int((80 if ctx.quick else 1500) * budget))
+    solver_helper_correspondence(ctx, res, drv, SC, int((1000 if ctx.quick else 20000) * budget))
     if not ctx.quick:
         for _ in range(20):
             n = rng.randrange(14, 31)
@@ -279,6 +312,231 @@ def run(ctx, budget=1.0):
     res.extra["driver_lines"] = drv.n_lines
     drv.close()
     return res
+
+
+# targets on which the time-reversed measurement meets an emitter-only generator that is exactly -Z on one emitter (the emitter has to be
+# flipped right after its mid-circuit reset): smallest known instances, one disconnected and one connected (9 vertices, 2 emitters)
+CORPUS = [
+    (9, [(0, 2), (1, 3), (2, 3), (4, 6), (4, 7), (5, 6), (6, 7), (7, 8)]),
+    (9, [(0, 1), (0, 2), (1, 3), (2, 3), (3, 4), (4, 6), (4, 7), (5, 7), (5, 8), (6, 7)]),
+]
+
+
+def _conn_block(rng, k):
+    import networkx as nx
+
+    while True:
+        h = nx.gnp_random_graph(k, rng.uniform(0.3, 0.9), seed=rng.getrandbits(30))
+        if nx.is_connected(h):
+            return h
+
+
+def _block_target(rng):
+    """sparse target made of 2-3 small connected blocks on CONSECUTIVE vertex ranges (the emission order is the vertex order), optionally
+    bridged by single edges; 7..14 vertices, typically 2-3 emitters.  Emitters that become free between the blocks are what the
+    sign-sensitive branch of the time-reversed measurement acts on."""
+    import networkx as nx
+
+    k1, k2 = rng.randrange(3, 6), rng.randrange(4, 7)
+    g = nx.Graph()
+    g.add_edges_from(_conn_block(rng, k1).edges)
+    g.add_edges_from((u + k1, v + k1) for u, v in _conn_block(rng, k2).edges)
+    if rng.random() < 0.5:
+        g.add_edge(rng.randrange(k1), k1 + rng.randrange(k2))
+    if rng.random() < 0.3:
+        k3, off = rng.randrange(2, 4), k1 + k2
+        g.add_edges_from((u + off, v + off) for u, v in _conn_block(rng, k3).edges)
+        if rng.random() < 0.5:
+            g.add_edge(rng.randrange(off), off + rng.randrange(k3))
+    return nx.to_numpy_array(g, nodelist=sorted(g.nodes)).astype(int)
+
+
+def _tree_target(rng):
+    """tree on 8..11 vertices plus 0-3 extra edges, random vertex order"""
+    import networkx as nx
+
+    n = rng.randrange(8, 12)
+    g = nx.Graph()
+    g.add_nodes_from(range(n))
+    for v in range(1, n):
+        g.add_edge(v, rng.randrange(v))
+    for _ in range(rng.randrange(0, 4)):
+        u, v = rng.sample(range(n), 2)
+        g.add_edge(u, v)
+    adj = nx.to_numpy_array(g, nodelist=range(n)).astype(int)
+    p = rng.sample(range(n), n)
+    return adj[np.ix_(p, p)]
+
+
+def guided_targets(ctx, res, drv, SC, DC, pending, n_cand):
+    """Model-guided choice of targets.  The sign-sensitive steps of the solver (sign repair in `_single_out_emitter` and in
+    `_add_photon_absorption`) depend on the SHAPE and SIGN of the generator they act on; some combinations (e.g. a time-reversed measurement
+    whose emitter-only generator is exactly -Z on one emitter) occur on no connected graph with <= 6 vertices and on < 1 % of random sparse
+    targets.  The compiled solver model prints, for a target, the tags of the combinations its run meets (`solver.tags`, ~6 ms per target), so
+    many sparse candidates are screened with the model and the REAL solver is then run and validated on (a) the fixed corpus, (b) every
+    candidate that meets a sign-repair on a single-Z generator, (c) up to three candidates per other tag with a firing sign repair.
+    The tag histogram of the screened candidates and of all solved targets goes into the evidence (`branches`, keys `screen:` / `tag:`)."""
+    flush(res, drv, pending)
+    for n, edges in CORPUS:
+        adj = np.zeros((n, n), dtype=int)
+        for u, v in edges:
+            adj[u, v] = adj[v, u] = 1
+        check_graph(ctx, res, drv, adj, "g", "stab", SC, DC, pending, light=True)
+    cands = []
+    for i in range(n_cand):
+        adj = _block_target(ctx.rng) if i % 4 else _tree_target(ctx.rng)
+        if not (adj.sum(axis=0) == 0).any():
+            cands.append(adj)
+    lines = [f"solver.tags n={a.shape[0]} x={tu.bits(np.eye(a.shape[0], dtype=int))} z={tu.bits(a)} r={'0' * a.shape[0]}" for a in cands]
+    chosen, per_tag = [], {}
+    for adj, rep in zip(cands, drv.batch(lines)):
+        if rep["_status"] != "ok":
+            continue
+        tags = set(() if rep.get("tags", "-") == "-" else rep["tags"].split("|"))
+        for tg in tags:
+            res.count("branches", "screen:" + tg)
+        want = False
+        for tg in sorted(tags):
+            if not tg.endswith(":-"):
+                continue
+            cap = (6 if ctx.quick else 80) if tg == "trm:Z1:-" else (2 if ctx.quick else 6)
+            if per_tag.get(tg, 0) < cap:
+                per_tag[tg] = per_tag.get(tg, 0) + 1
+                want = True
+        if want:
+            chosen.append(adj)
+    res.extra["guided"] = {"screened": len(cands), "chosen": len(chosen), "per_tag": per_tag}
+    for adj in chosen:
+        check_graph(ctx, res, drv, adj, "s" if ctx.rng.random() < 0.5 else "g", "stab", SC, DC, pending, light=True)
+        if len(pending) > 40:
+            flush(res, drv, pending)
+    flush(res, drv, pending)
+
+
+def _working_tableau(rng):
+    """a synthetic working tableau of the solver before the round of photon `p`: photons p+1..np-1 absorbed (|0>), the active qubits (photons
+    0..p and the emitters) in a random stabilizer state of one of three shapes — one emitter free in a single-qubit state ±X/±Y/±Z (the generator a
+    time-reversed measurement acts on is then a signed single Pauli), two emitters jointly free, or everything entangled —, random signs,
+    brought to the echelon gauge by the real `rref`.  Returns (np, ne, p, StabilizerTableau)."""
+    import graphiq.backends.stabilizer.functions.stabilizer as sfs
+    from graphiq.backends.stabilizer.tableau import StabilizerTableau
+    from harness import stabutil as su
+
+    np_, ne = rng.randrange(2, 6), rng.randrange(1, 4)
+    p = rng.randrange(np_)
+    n = np_ + ne
+    active = list(range(p + 1)) + list(range(np_, n))
+    shape = rng.randrange(3)
+    blocks = []
+    if shape == 0:
+        e = rng.choice(range(np_, n))
+        blocks.append([e])
+        blocks.append([q for q in active if q != e])
+    elif shape == 1 and ne >= 2:
+        es = rng.sample(range(np_, n), 2)
+        blocks.append(es)
+        blocks.append([q for q in active if q not in es])
+    else:
+        blocks.append(active)
+    x = np.zeros((n, n), dtype=int)
+    z = np.zeros((n, n), dtype=int)
+    r = np.zeros(n, dtype=int)
+    row = 0
+    for q in range(p + 1, np_):
+        z[row, q] = 1
+        row += 1
+    for qs in blocks:
+        if not qs:
+            continue
+        st = su.random_state(rng, len(qs)).to_stabilizer()
+        t = np.asarray(st.table).astype(int)
+        k = len(qs)
+        for i in range(k):
+            for j, q in enumerate(qs):
+                x[row, q] = t[i, j]
+                z[row, q] = t[i, k + j]
+            r[row] = int(st.phase[i])
+            row += 1
+    perm = rng.sample(range(n), n)
+    tab = StabilizerTableau([x[perm], z[perm]], r[perm])
+    tab = sfs.rref(tab)
+    return np_, ne, p, tab
+
+
+_HELPER_SOLVERS = {}
+
+
+def _helper_solver(np_, ne, SC):
+    import networkx as nx
+    from graphiq.metrics import Infidelity
+    from graphiq.solvers.time_reversed_solver import TimeReversedSolver
+    from graphiq.state import QuantumState
+
+    if (np_, ne) not in _HELPER_SOLVERS:
+        target = QuantumState(nx.path_graph(np_), rep_type="g")
+        solver = TimeReversedSolver(target=target, metric=Infidelity(target), compiler=SC())
+        solver.n_emitter, solver.n_photon = ne, np_
+        _HELPER_SOLVERS[(np_, ne)] = solver
+    return _HELPER_SOLVERS[(np_, ne)]
+
+
+def solver_helper_correspondence(ctx, res, drv, SC, count):
+    """Helper-level correspondence of the two tableau-rewriting steps of the solver: the REAL `_time_reversed_measurement` and
+    `_add_photon_absorption` are driven on synthetic working tableaux (signed, in echelon gauge, incl. the shape "the emitter-only generator is
+    ±P on one emitter") and compared with the model's functions (`solver.trm` / `solver.absorb`): resulting tableau (x, z, signs), recorded
+    operations per wire, or the class of the exception.  A disagreement is a broken correspondence of C02 (then `search` looks for a
+    solver-level failing target), not by itself a violation."""
+    from graphiq.circuit.circuit_dag import CircuitDAG
+    from harness import stabutil as su
+
+    _HELPER_SOLVERS.clear()
+    jobs = []
+    def fits(which, np_, p, tab):
+        t = np.asarray(tab.table).astype(int)
+        n = tab.n_qubits
+        nz = (t[:, :n] + t[:, n:]) > 0
+        if which == "trm":  # some generator acts on no photon
+            return bool((~nz[:, :np_].any(axis=1)).any())
+        lead = [int(np.argmax(row)) if row.any() else -1 for row in nz]  # a generator starts at the photon and acts on an emitter
+        return any(ld == p and nz[i, np_:].any() for i, ld in enumerate(lead))
+
+    for i in range(count):
+        which = "trm" if i % 2 == 0 else "absorb"
+        for attempt in range(6):
+            np_, ne, p, tab = _working_tableau(ctx.rng)
+            if fits(which, np_, p, tab) or (attempt == 0 and ctx.rng.random() < 0.1):
+                break
+        args = f"np={np_} ne={ne} photon={p} " + su.stab_args(tab)
+        solver = _helper_solver(np_, ne, SC)
+        circuit = CircuitDAG(n_emitter=ne, n_photon=np_, n_classical=1)
+        work = tab.copy()
+        try:
+            if which == "trm":
+                solver._time_reversed_measurement(circuit, work, p)
+            else:
+                solver._add_photon_absorption(circuit, work, p)
+            toks, _ = tokens_of(circuit)
+            impl = ("ok", su.stab_tuple(work), per_wire(toks), ",".join(toks))
+        except UnboundLocalError:
+            impl = ("err", "runtime")
+        except Exception as e:  # noqa: BLE001
+            impl = ("err", err_class(e))
+        jobs.append((f"solver.{which} {args}", which, args, impl))
+    n_ok = 0
+    for (ln, which, args, impl), rep in zip(jobs, drv.batch([j[0] for j in jobs])):
+        res.evaluations += 1
+        res.count("branches", f"helper:{which}:{impl[0]}")
+        if rep["_status"] != "ok":
+            got = ("err", rep.get("_err", rep["_raw"].split()[-1] if rep["_raw"] else ""))
+        else:
+            mt = [] if rep["ops"] == "-" else rep["ops"].split(",")
+            got = ("ok", su.reply_stab_tuple(rep), per_wire(mt), rep["ops"])
+        same = (impl[0] == got[0]) and (impl[1] == got[1]) and (impl[0] == "err" or impl[2] == got[2])
+        if same:
+            n_ok += impl[0] == "ok"
+            continue
+        res.exact_break(f"helper:solver.{which}", input={"args": args}, impl=str(impl[1:])[:900], model=rep["_raw"][:900])
+    res.extra["solver_helper_ok"] = n_ok
 
 
 def helper_correspondence(ctx, res, drv, count):
@@ -324,6 +582,8 @@ def search(ctx, res, proof_broken):
     pending = []
     t0 = time.time()
     n_try = 0
+    # first the sparse block-structured targets chosen with the model's branch tags (the sign-sensitive branches of the two solver helpers)
+    guided_targets(ctx, res, drv, SC, DC, pending, 4000 if ctx.quick else 20000)
     while time.time() - t0 < (240 if ctx.quick else 1200) and not res.violations:
         n = ctx.rng.randrange(6, 10)
         g = nx.gnp_random_graph(n, ctx.rng.uniform(0.35, 0.8), seed=ctx.rng.getrandbits(30))
@@ -350,7 +610,8 @@ def replay(ctx, data):
     drv = Driver()
     SC, DC = make_compilers()
     pending = []
-    check_graph(ctx, res, drv, adj, inp.get("target_rep", "g"), inp.get("backend", "stab"), SC, DC, pending)
+    order = [int(k) for k in inp["node_order"].split(",")] if inp.get("node_order") else None
+    check_graph(ctx, res, drv, adj, inp.get("target_rep", "g"), inp.get("backend", "stab"), SC, DC, pending, order=order, repeat=True)
     flush(res, drv, pending)
     drv.close()
     for x in res.violations:
